@@ -387,7 +387,7 @@ def run_check(prop, tier, batch_seed, jobs, runs=None, verbose=False):
             by_sig.setdefault(sig, []).append((r, {"signature": list(sig), "message": "result digests %s vs %s under PYTHONHASHSEED %d vs %d" % (agg.digests[i][1], agg2.digests[i][1], h1, h2), "property": prop, "oracle": "hash-order"}))
         n_unlisted = 0
         n_known = 0
-        shrunk_budget = 4
+        shrunk_budget = int(os.environ.get('VERIF_SHRINK_MAX', '4'))
         for sig, items in sorted(by_sig.items()):
             entry = match_finding(findings, prop, sig)
             if entry is not None:
